@@ -267,12 +267,31 @@ def gen_malformed(rng, i, p_wellformed=0.1, allow_random=True):
         return inp, data, [dict(kind="random-bytes", cls="raw", depth=0, regions=[])], "random"
     if rng.random() < 0.08:
         inp = synth.gen_input(rng)
+    elif rng.random() < 0.12:
+        inp = gen_input(rng, ("stream", None))
     else:
         inp = gen_input(rng, target_for(i, rng))
     o = model.decode(inp["root"], inp["data"], cc=inp["cc"], enc=inp["enc"])
     data = inp["data"]
     if r < 0.05 + p_wellformed:
         return inp, data, [], "wellformed"
+    if rng.random() < 0.12 and len(o.sizefields) > 1:
+        # a nested size field whose declared end lies at / just beyond the end of an enclosing region, with input
+        # following (later messages or surplus), so that recovery has somewhere to land
+        nested = [i for i, r_ in o.sizefields if F.depth_at(o, o.items[i][4]) >= 1 and o.regions[r_].kind in ("tpm2b", "authSize", "parameterSize")]
+        if nested:
+            idx = rng.choice(nested)
+            vs = F.size_variants(o, idx)[10:] or F.size_variants(o, idx)
+            f = F.fault_size(data, o, rng, idx=idx, value=rng.choice(vs))
+            if f:
+                data, rec = f
+                recs = [rec]
+                if inp["root"] != model.STREAM or rng.random() < 0.3:
+                    fa = F.fault_append(data, o, rng)
+                    if fa:
+                        data, rec2 = fa
+                        recs.append(rec2)
+                return inp, data, recs, "beyond-enclosing"
     r = rng.random()
     if r < 0.30:
         f = F.fault_size(data, o, rng)
